@@ -9,7 +9,9 @@
 // Ops (one output line each)
 //
 //   fetch <mode> <payload-hex> <path> <path> ...                                            (C30)
-//       mode   : auto | direct | tonly | cfb
+//       mode   : auto | direct | tonly | cfb, optionally followed by manifest-state flags joined with '+':
+//                past / now / far (expiry an hour ago / this instant / in 50 years), thr0 / thrbig (threshold 0 / above the
+//                share count), nopub (no publisher identity), undec1..4 (URI the CLI cannot decode)
 //       path   : <kind>:<prio>:<script>
 //                kind  t = transport hint (tcp)   r = relay transport hint   c = control hint
 //                      f = control:// fallback    l = the local daemon (at most one)
@@ -550,11 +552,19 @@ int g_counter = 0;
 std::string op_fetch_once(const std::vector<std::string>& t, bool& timing_suspect) {
     timing_suspect = false;
     if (t.size() < 3) return "bad-op";
-    std::string mode = t[1];
-    bool pre = false;
-    if (const auto plus = mode.find("+pre"); plus != std::string::npos) { pre = true; mode = mode.substr(0, plus); }
+    const auto mode_parts = verif::split(t[1], '+');
+    std::string mode = mode_parts[0];
+    const bool pre = false;
+    std::set<std::string> mflags(mode_parts.begin() + 1, mode_parts.end());
     const std::string payload = str_of_hex(t[2]);
     Crafted crafted = craft_manifest(payload);
+    // the state of the manifest itself
+    if (mflags.contains("past")) crafted.manifest.expires_at = std::chrono::system_clock::now() - std::chrono::hours(1);
+    if (mflags.contains("now")) crafted.manifest.expires_at = std::chrono::system_clock::now();
+    if (mflags.contains("far")) crafted.manifest.expires_at = std::chrono::system_clock::now() + std::chrono::hours(24 * 365 * 50);
+    if (mflags.contains("thr0")) crafted.manifest.threshold = 0;
+    if (mflags.contains("thrbig")) crafted.manifest.threshold = 9;     // more than the three shares present
+    if (mflags.contains("nopub")) { crafted.manifest.metadata.erase("publisher_peer"); crafted.manifest.metadata.erase("publisher_public"); }
     std::vector<Endpoint> eps;
     for (std::size_t i = 3; i < t.size(); ++i) {
         const auto parts = verif::split(t[i], ':');
@@ -589,7 +599,17 @@ std::string op_fetch_once(const std::vector<std::string>& t, bool& timing_suspec
     }
     Listener local_refusing;
     if (local_port == 0) { local_refusing = make_refusing(); local_port = local_refusing.port; }
-    const std::string uri = protocol::encode_manifest(crafted.manifest);
+    std::string uri = protocol::encode_manifest(crafted.manifest);
+    // manifests the CLI cannot decode (still an eph:// URI, so the command gets as far as the local daemon)
+    if (mflags.contains("undec1")) uri = uri.substr(0, 6 + 40);                                   // truncated
+    if (mflags.contains("undec2")) uri = "eph://" + std::string("QUJDREVGR0g");                      // a few unrelated bytes
+    if (mflags.contains("undec3")) { uri[6] = (uri[6] == 'Z' ? 'Y' : 'Z'); }                       // version byte changed
+    if (mflags.contains("undec4")) uri = uri.substr(0, uri.size() - 9);                           // tail (fallback hints) cut off
+    if (mflags.contains("undec1") || mflags.contains("undec2") || mflags.contains("undec3") || mflags.contains("undec4")) {
+        bool decodes = true;
+        try { (void)protocol::decode_manifest(uri); } catch (const std::exception&) { decodes = false; }
+        if (decodes) return "bad-op:still-decodable";
+    }
     const fs::path dir = fs::path(g_scratch) / ("f" + std::to_string(++g_counter));
     fs::create_directories(dir);
     const fs::path out = dir / "out.bin";
